@@ -383,6 +383,7 @@ func (e *Engine) runPath(fn *ssa.Function, prefix []uint64, base Options) {
 	e.cwd = ""
 	e.dirs = nil
 	e.files = nil
+	e.dirOff = nil
 	e.gomaxprocs = nil
 	e.tableLoop = nil
 	e.absKernel = nil
